@@ -228,29 +228,6 @@ func isCount0(g *quota.Group) bool {
 	return g.CPULimit != nil && g.CPULimit.Count == 0 && g.CPULimit.Percentage != 0
 }
 
-// the parent loop of validateCPUResourceFit, as seen from outside: does it stop at an ancestor that has a cpu set but
-// no cpu quota while an ancestor further up does have a cpu quota?
-func (w *world) stopsAtSetOnlyAncestor(t *quota.Group) bool {
-	a := w.byName[t.ParentGroup]
-	for a != nil {
-		cnt, pct := a.GetLocalCPUQuota()
-		if cnt*pct != 0 {
-			return false
-		}
-		if len(a.GetLocalCPUSetQuota()) > 0 {
-			for up := w.byName[a.ParentGroup]; up != nil; up = w.byName[up.ParentGroup] {
-				c, p := up.GetLocalCPUQuota()
-				if c*p != 0 {
-					return true
-				}
-			}
-			return false
-		}
-		a = w.byName[a.ParentGroup]
-	}
-	return false
-}
-
 // ---------------------------------------------------------------- execution
 
 type stepObs struct {
@@ -263,9 +240,9 @@ type stepObs struct {
 	// the request changed the size of the effective cpu set of an already existing group that is percentage-only
 	// (count 0) after the request
 	EffSetChangedForCount0 bool `json:"effset_changed_for_count0,omitempty"`
-	// the request carried a cpu quota and the validator's parent loop ends at a cpu-set-only ancestor below an
-	// ancestor with a cpu quota
-	StopsAtSetOnlyAncestor bool `json:"stops_at_set_only_ancestor,omitempty"`
+	// the request left its target with a percentage-only cpu quota whose effective cpu set has more entries than
+	// runtime.NumCPU (the validator sizes the request by len(set), GetLocalCPUQuota caps it at NumCPU)
+	Count0SetLargerThanNumCPU bool `json:"count0_set_larger_than_numcpu,omitempty"`
 }
 
 func exec(i in) vh.Out {
@@ -350,12 +327,18 @@ func exec(i in) vh.Out {
 				so.EffSetChangedForCount0 = true
 			}
 		}
-		if err == nil && rq.Res.CPU != nil && rq.Res.CPU[1] != 0 {
+		if err == nil {
 			t := target
 			if kind != "upd" {
 				t = w.byName[name(so.ID)]
 			}
-			so.StopsAtSetOnlyAncestor = w.stopsAtSetOnlyAncestor(t)
+			if isCount0(t) && len(t.GetCPUSetQuota()) > i.NCPU {
+				so.Count0SetLargerThanNumCPU = true
+			}
+			// a new percentage-only sub-group that brings its own cpu set: the validator sized it by the inherited set
+			if kind == "sub" && isCount0(t) && len(t.GetCPUSetQuota()) != len(target.GetCPUSetQuota()) {
+				so.EffSetChangedForCount0 = true
+			}
 		}
 		obs = append(obs, so)
 		steps = append(steps, "("+coqReq+", "+vh.CoqBool(err == nil)+", "+coqForest(f)+")")
@@ -495,11 +478,40 @@ func findingHistory() in {
 	}}
 }
 
+// regression cases: the defect repaired in /repo commit 731c638 (the last request must now be refused), and the two other
+// ways in which a percentage-only request is sized by something else than the cpu set it ends up with
+func regressionHistories() []in {
+	set0245 := []int{0, 2, 4, 5}
+	set01 := []int{0, 1}
+	set000 := []int{0, 0, 0}
+	s12 := []int{0, 1, 2, 3, 4, 5, 6, 7, 8, 9, 10, 11}
+	return []in{
+		{NCPU: 8, Reqs: []reqIn{
+			{Kind: "new", Res: resIn{CPU: &[2]int{2, 25}}},
+			{Kind: "sub", Path: []int{0}, Res: resIn{Set: &set0245}},
+			{Kind: "sub", Path: []int{0, 0}, Res: resIn{CPU: &[2]int{4, 100}}},
+			{Kind: "sub", Path: []int{0, 0}, Res: resIn{CPU: &[2]int{1, 50}}},
+		}},
+		{NCPU: 8, Reqs: []reqIn{ // cpu set with more entries than NumCPU under a percentage-only quota
+			{Kind: "new", Res: resIn{CPU: &[2]int{12, 100}, Set: &s12}},
+			{Kind: "sub", Path: []int{0}, Res: resIn{CPU: &[2]int{4, 100}}},
+			{Kind: "sub", Path: []int{0}, Res: resIn{CPU: &[2]int{4, 100}}},
+			{Kind: "sub", Path: []int{0}, Res: resIn{CPU: &[2]int{2, 100}}},
+			{Kind: "upd", Path: []int{0}, Res: resIn{CPU: &[2]int{0, 100}, Set: &s12}},
+		}},
+		{NCPU: 8, Reqs: []reqIn{ // a new percentage-only sub-group whose own cpu set repeats an entry
+			{Kind: "new", Res: resIn{CPU: &[2]int{2, 100}, Set: &set01}},
+			{Kind: "sub", Path: []int{0}, Res: resIn{CPU: &[2]int{0, 100}, Set: &set000}},
+		}},
+	}
+}
+
 func gen(r *vh.Rand, tier string, n int) []in {
 	if n == 0 {
 		n = 400
 	}
 	ins := []in{findingHistory()}
+	ins = append(ins, regressionHistories()...)
 	// hand-written histories around the boundaries of each validator
 	mib := func(v uint64) *uint64 { return u64(v * 1024 * kib) }
 	ins = append(ins,
